@@ -37,7 +37,17 @@ def _np_value(kind, v):
 
 @st.composite
 def _plan(draw, max_rows):
-    if draw(st.integers(0, 5)) == 0:
+    special = draw(st.integers(0, 11))
+    if special == 0:
+        # several plain-number key columns of different kinds without missing cells: integers beyond 2**53 next to
+        # float keys must stay distinct (no common-dtype promotion of the key tuple)
+        fp = draw(gen.frame_plan(kinds=["i", "f", "i", "i8", "u8"], max_rows=max_rows, max_cols=3, min_cols=2,
+                                 prefix="c", mode="tight"))
+        for c in fp["cols"]:
+            if c["kind"] == "f":
+                c["vals"] = [1.0 if v != v else v for v in c["vals"]]
+        name = "unique"
+    elif special in (1, 2):
         # several key columns that can hold missing values, tight pools: rows that differ only in *where* the
         # missing value sits (and in 0 / epoch vs missing) are the norm here
         fp = draw(gen.frame_plan(kinds=["f", "d", "t", "td", "f", "s", "o"], max_rows=max_rows, max_cols=3, min_cols=2,
